@@ -1,8 +1,9 @@
 #!/bin/bash
-# tools/triage.sh <PROP> <k> [feature] [extra props...] : confirm a sub-agent's seed in its scratch worktree, then run the target check(s) against it
-P=$1; K=$2; FEAT=$3; shift 3
-S=/tmp/seed-$P/$K
-[ -f $S/patch.diff ] || { echo "$P-$K: no patch"; exit 0; }
-bash /verif/tools/confirm_seed.sh $P $K $FEAT > /dev/null 2>&1
-echo "== $P-$K confirm: $(cat $S/confirm.txt)"
-python3 /verif/tools/seedrun.py $S $P "$@" 2>&1 | grep -v "^WARNING" | cut -c1-330
+# tools/triage.sh <WID> <k> [feature] [PROP] : confirm a sub-agent's seed in its scratch worktree /tmp/wt-<WID> (seed files in /tmp/seed-<WID>/<k>),
+# then run the target check (PROP, default WID) against it
+W=$1; K=$2; FEAT=$3; P=${4:-$1}
+S=/tmp/seed-$W/$K
+[ -f $S/patch.diff ] || { echo "$W-$K: no patch"; exit 0; }
+bash /verif/tools/confirm_seed.sh $W $K $FEAT > /dev/null 2>&1
+echo "== $W-$K confirm: $(cat $S/confirm.txt)"
+python3 /verif/tools/seedrun.py $S $P 2>&1 | grep -v "^WARNING" | cut -c1-330
